@@ -64,14 +64,111 @@ func isNilConst(v ssa.Value) bool {
 	return ok && k.IsNil()
 }
 
+// condFact: an atomic condition (comparison, flag load, call) known to be true
+// or false.
+type condFact struct {
+	cond  ssa.Value
+	truth bool
+}
+
+// condFacts decomposes "cond is <truth>" into atomic facts, looking through !x
+// and through the value form of short-circuit operators (go/ssa lowers `a || b`
+// outside an if - e.g. in a case of a tagless switch - to a phi of bools fed by
+// constant edges from the blocks that decided early).
+func condFacts(cond ssa.Value, truth bool, depth int) []condFact {
+	if depth > 6 {
+		return nil
+	}
+	switch x := cond.(type) {
+	case *ssa.UnOp:
+		if x.Op == token.NOT {
+			return condFacts(x.X, !truth, depth+1)
+		}
+	case *ssa.Phi:
+		if b, ok := x.Type().Underlying().(*types.Basic); !ok || b.Kind() != types.Bool {
+			break
+		}
+		// a || b ...: constant true edges + one value; a && b ...: constant false edges + one value
+		var early []int
+		var last ssa.Value
+		kind := -1 // the constant on the early edges
+		okShape := true
+		for k, e := range x.Edges {
+			if c, isC := e.(*ssa.Const); isC && c.Value != nil {
+				v := 0
+				if c.Value.String() == "true" {
+					v = 1
+				}
+				if kind == -1 {
+					kind = v
+				} else if kind != v {
+					okShape = false
+				}
+				early = append(early, k)
+			} else if last == nil {
+				last = e
+			} else {
+				okShape = false
+			}
+		}
+		if !okShape || last == nil || kind == -1 {
+			break
+		}
+		// `||` (early edges true) decomposes when false; `&&` (early edges false) when true
+		if (kind == 1) == truth {
+			return nil
+		}
+		var out []condFact
+		for _, k := range early {
+			p := x.Block().Preds[k]
+			ifi, ok := p.Instrs[len(p.Instrs)-1].(*ssa.If)
+			want := 1 // && leaves by the false edge
+			if kind == 1 {
+				want = 0 // || leaves by the true edge
+			}
+			if !ok || len(p.Succs) != 2 || p.Succs[want] != x.Block() || p.Succs[1-want] == x.Block() {
+				return nil
+			}
+			// the early edge is the one taken when the operand decided: true for ||, false for &&
+			out = append(out, condFacts(ifi.Cond, truth, depth+1)...)
+		}
+		return append(out, condFacts(last, truth, depth+1)...)
+	}
+	return []condFact{{cond, truth}}
+}
+
+// edgeFacts: the atomic facts that hold on entry to every successor of an If
+// block that has no other predecessor.
+func edgeFacts(fn *ssa.Function, visit func(edge *ssa.BasicBlock, f condFact)) {
+	for _, b := range fn.Blocks {
+		if len(b.Instrs) == 0 {
+			continue
+		}
+		ifi, ok := b.Instrs[len(b.Instrs)-1].(*ssa.If)
+		if !ok {
+			continue
+		}
+		for si, s := range b.Succs {
+			if len(s.Preds) != 1 {
+				continue
+			}
+			for _, f := range condFacts(ifi.Cond, si == 0, 0) {
+				visit(s, f)
+			}
+		}
+	}
+}
+
 // nilTestEdges returns, for value v, the blocks entered exactly when v is
 // known non-nil / known nil (successors of `if v != nil` / `if v == nil`
-// that have a single predecessor).
+// that have a single predecessor; also through !, and the value form of || and &&).
 func nilTestEdges(v ssa.Value) (nonNil, isNil []*ssa.BasicBlock) {
 	refs := v.Referrers()
 	if refs == nil {
 		return
 	}
+	var fn *ssa.Function
+	tests := map[ssa.Value]token.Token{}
 	for _, ref := range *refs {
 		bin, ok := ref.(*ssa.BinOp)
 		if !ok || (bin.Op != token.NEQ && bin.Op != token.EQL) {
@@ -86,24 +183,24 @@ func nilTestEdges(v ssa.Value) (nonNil, isNil []*ssa.BasicBlock) {
 		if !isNilConst(other) {
 			continue
 		}
-		for _, r2 := range *bin.Referrers() {
-			ifi, ok := r2.(*ssa.If)
-			if !ok {
-				continue
-			}
-			t, f := ifi.Block().Succs[0], ifi.Block().Succs[1]
-			if bin.Op == token.EQL {
-				t, f = f, t
-			}
-			// t: v != nil holds ; f: v == nil holds
-			if len(t.Preds) == 1 {
-				nonNil = append(nonNil, t)
-			}
-			if len(f.Preds) == 1 {
-				isNil = append(isNil, f)
-			}
-		}
+		tests[bin] = bin.Op
+		fn = bin.Parent()
 	}
+	if fn == nil {
+		return
+	}
+	edgeFacts(fn, func(edge *ssa.BasicBlock, f condFact) {
+		op, ok := tests[f.cond]
+		if !ok {
+			return
+		}
+		// v != nil holds iff (op is != and true) or (op is == and false)
+		if (op == token.NEQ) == f.truth {
+			nonNil = append(nonNil, edge)
+		} else {
+			isNil = append(isNil, edge)
+		}
+	})
 	return
 }
 
